@@ -142,3 +142,50 @@ H("streams_queue_max_stream_id", ["C06"], "quick", "connection::streams::state::
 H("streams_max_send_data", ["C05"], "quick", "connection::streams::state::max_send_data",
   [("server", "bool"), ("raw_id", "u64"), ("uni", "u64"), ("bidi_local", "u64"), ("bidi_remote", "u64")], 6,
   ["reached"], ["StreamsState::max_send_data", "StreamsState::is_local_unopened"], "every id/limit < 2^62")
+
+# ------------------------------------------------------------------ mtud.rs (C13)
+_M = [("current", "u16"), ("min_mtu", "u16"), ("enabled", "bool"), ("phase", "u8"), ("peer_max", "u16"), ("cfg_upper", "u16"),
+      ("min_change", "u16"), ("lower", "u16"), ("upper", "u16"), ("last_probed", "u16"), ("in_flight", "bool"),
+      ("in_flight_pn", "u64"), ("lost", "u8"), ("complete_secs", "u32"), ("interval_secs", "u32"), ("cooldown_secs", "u32"), ("ghost_min_peer", "u16")]
+H("mtud_search_step", ["C13"], "quick", "connection::mtud::search_step",
+  _M + [("op", "u8"), ("now_secs", "u32"), ("pn", "u64"), ("len", "u16"), ("space", "u8"), ("new_peer_max", "u16")], 8,
+  ["reached", "probe retransmitted", "fresh probe size", "no probe", "probe acked: estimate raised", "probe lost", "discovery disabled", "peer limit received"],
+  ["MtuDiscovery::poll_transmit", "EnabledMtuDiscovery::poll_transmit", "SearchState::new", "SearchState::next_mtu_to_probe",
+   "MtuDiscovery::on_acked", "EnabledMtuDiscovery::on_probe_acked", "MtuDiscovery::on_probe_lost", "MtuDiscovery::in_flight_mtu_probe",
+   "MtuDiscovery::on_peer_max_udp_payload_size_received"],
+  "one step from EVERY state satisfying the representation invariant: all u16 sizes/configs (min_mtu, peer limit >= 1200), all phases, all u64 packet numbers, all u32-second instants")
+H("mtud_new_establishes_inv", ["C13"], "quick", "connection::mtud::new_establishes_inv",
+  [("initial", "u16"), ("min_mtu", "u16"), ("has_peer", "bool"), ("peer_max", "u16"), ("cfg_upper", "u16"), ("min_change", "u16"), ("disabled", "bool"), ("pn", "u64")], 8,
+  ["reached", "first probe", "no probe", "disabled"],
+  ["MtuDiscovery::new", "MtuDiscovery::disabled", "MtuDiscovery::poll_transmit", "SearchState::new"],
+  "every validated configuration: 1200 <= min_mtu <= initial_mtu, peer limit >= 1200, upper bound <= 65527")
+H("mtud_black_hole_step", ["C13"], "quick", "connection::mtud::black_hole_step",
+  [("current", "u16"), ("min_mtu", "u16"), ("nbursts", "u8"), ("b0", "u16"), ("b1", "u16"), ("b2", "u16"), ("b3", "u16"),
+   ("has_cur", "bool"), ("cur_size", "u16"), ("cur_pn", "u64"), ("largest_post_loss", "u64"), ("acked_mtu", "u16"),
+   ("enabled", "bool"), ("op", "u8"), ("pn", "u64"), ("len", "u16"), ("now_secs", "u32"), ("cooldown_secs", "u32"), ("peer_max", "u16")], 8,
+  ["reached", "loss extends burst", "loss starts burst", "non-probe acked", "black hole detected", "no black hole"],
+  ["BlackHoleDetector::on_non_probe_lost", "BlackHoleDetector::on_non_probe_acked", "BlackHoleDetector::black_hole_detected",
+   "BlackHoleDetector::finish_loss_burst", "MtuDiscovery::black_hole_detected", "EnabledMtuDiscovery::on_black_hole_detected"],
+  "one step from every detector state with 0..=4 stored bursts, all u16 sizes, all u64 packet numbers (losses reported in increasing order)")
+H("mtud_history_lossy_search", ["C13"], "thorough", "connection::mtud::history_all_probes_lost",
+  [("initial", "u16"), ("cfg_upper", "u16"), ("min_change", "u16"), ("ack_below", "u16")], 66,
+  ["reached", "a probe was acked", "a probe was lost", "search completed"],
+  ["MtuDiscovery::new", "MtuDiscovery::poll_transmit", "MtuDiscovery::on_acked", "MtuDiscovery::on_probe_lost", "SearchState::next_mtu_to_probe"],
+  "whole search histories from MtuDiscovery::new (<= 64 probes): initial = min_mtu in 1200..=1300, upper bound <= 1500, 1 <= minimum_change <= 32, every delivery threshold (probes below it are acked, others lost)",
+  heavy=True)
+
+# ------------------------------------------------------------------ ack_frequency.rs (C03.f)
+H("ackfreq_candidate_max_ack_delay", ["C03"], "quick", "connection::ack_frequency::candidate_max_ack_delay",
+  [("rtt_s", "u32"), ("rtt_ns", "u32"), ("peer_s", "u32"), ("peer_ns", "u32"), ("peer_tp_max_ack_delay_ms", "u16"), ("has_min", "bool"), ("min_ack_delay_us", "u32"), ("has_cfg", "bool"), ("cfg_s", "u32"), ("cfg_ns", "u32")], 8,
+  ["reached", "peer minimum above automatic bound", "base value used"],
+  ["AckFrequencyState::candidate_max_ack_delay", "Duration::clamp"],
+  "every rtt / current delay / configured delay < 2^32 s at ns resolution; every peer (max_ack_delay < 2^14 ms, min_ack_delay <= max_ack_delay*1000 us) that TransportParameters::read accepts")
+H("ackfreq_received", ["C03"], "quick", "connection::ack_frequency::ack_frequency_received",
+  [("seq", "u64"), ("delay_us", "u32"), ("threshold", "u64"), ("reordering", "u64"), ("has_last", "bool"), ("last", "u64"), ("old_delay_us", "u16")], 8,
+  ["adopted", "stale", "PROTOCOL_VIOLATION"],
+  ["AckFrequencyState::ack_frequency_received", "PendingAcks::set_ack_frequency_params"], "sequence/thresholds < 2^62, requested delay < 2^32 us, previous delay < 2^16 us (full-width 64-bit division by 10^6 does not finish in the SAT back end)")
+H("ackfreq_sender_bookkeeping", ["C03"], "quick", "connection::ack_frequency::sender_bookkeeping",
+  [("peer_us", "u16"), ("has_in_flight", "bool"), ("in_pn", "u64"), ("in_us", "u16"), ("acked_pn", "u64"), ("next_seq", "u64"), ("sent_pn", "u64"), ("sent_us", "u16")], 8,
+  ["reached", "request acknowledged"],
+  ["AckFrequencyState::max_ack_delay_for_pto", "AckFrequencyState::on_acked", "AckFrequencyState::next_sequence_number", "AckFrequencyState::ack_frequency_sent"],
+  "all durations < 2^16 us, all u64 packet numbers")
